@@ -14,6 +14,12 @@ CHECKS = {
         "string views: view_equals_iff / view_copy_exact proved for every storage and every pair of in-bounds views. Tie to the code: regenerated tables plus "
         "differential run of model and implementation on all slice pairs of small storages.",
    note="The view model abstracts pointers to (offset,length) into one storage; views into unrelated objects behave as disjoint offsets.", ref="§5 C20"),
+ "C09": dict(cat="proof", tech="Lean 4 theorems (invariant by induction over request histories, omega on size_t arithmetic modelled with explicit % 2^64) and white-box model/implementation correspondence",
+   text="For every buffer address and capacity and every valid request history the invariant (alignment, in-bounds, pairwise disjointness of live blocks) is proved "
+        "(bump_inv_reachable, bump_live_blocks_sound); per request: soundness of granted blocks in unbounded arithmetic, refusal iff the rounded block does not fit, "
+        "refusal changes nothing, realloc only for the last block and in place, free of the last block reclaims. Tie: per-step comparison of returned offset, last and top "
+        "with the implementation on unaligned buffers, huge sizes and overflowing calloc products, plus the harness's own spec oracle.",
+   note="calloc's zeroing (memset) and the buffer being a real object (base+capacity < 2^64) are assumed; alignments in K divide 65536.", ref="§5 C09"),
 }
 
 NOT_YET = "check not built yet in this revision (framework under construction; see DESIGN.md §8)"
